@@ -36,17 +36,24 @@ def rand_selection(rng):
             "user_verification": pick([u.value for u in UserVerificationRequirement]) if rng.random() < 0.8 else "preferred"}
 
 
+# strings that are legal JSON / Python text but that "helpful" processing changes: not in Unicode NFC (combining mark,
+# Angstrom / Ohm signs, conjoining jamo, compatibility ideograph), case-sensitive, leading/trailing/inner whitespace,
+# control characters, characters JSON must escape, non-BMP
+ODD_TEXT = ["Cafe\u0301", "\u212b\u2126", "\u1112\u1161\u11ab", "\uf900", "  padded  ", "Tab\tNew\nLine", "quote\"back\\slash/",
+            "\U0001f600 smile", "MiXeD CaSe", "\u0000nul", "\u200bzero-width", "\ufb01 ligature"]
+
+
 def rand_reg_args(rng):
     """keyword arguments in a neutral JSON-able form (bytes stay bytes)"""
-    a = {"rp_id": rng.choice(["example.com", "login.example.org", "é.example"]), "rp_name": rng.choice(["Example", "ACME Ünïcode"]),
-         "user_name": rng.choice(["alice", "bob@example.com", "ユーザー"]), "timeout": rng.choice([60000, 1, 0, 120000, 2 ** 40]),
+    a = {"rp_id": rng.choice(["example.com", "login.example.org", "é.example"]), "rp_name": rng.choice(["Example", "ACME Ünïcode"] + ODD_TEXT),
+         "user_name": rng.choice(["alice", "bob@example.com", "ユーザー"] + ODD_TEXT), "timeout": rng.choice([60000, 1, 0, 120000, 2 ** 40]),
          "attestation": rng.choice([a.value for a in AttestationConveyancePreference])}
     if rng.random() < 0.5:
         a["user_id"] = rng.bytes_(rng.choice([1, 16, 64]))
     if rng.random() < 0.1:
         a["user_id"] = b""
     if rng.random() < 0.5:
-        a["user_display_name"] = rng.choice(["Alice A.", "", "ボブ"])
+        a["user_display_name"] = rng.choice(["Alice A.", "", "ボブ"] + ODD_TEXT)
     if rng.random() < 0.5:
         a["challenge"] = rng.bytes_(rng.choice([16, 32, 64]))
     if rng.random() < 0.1:
